@@ -60,6 +60,9 @@ type subReport struct{ Rule, Construct, Verdict, Site, Detail string }
 // subRun analyses repo (optionally with one file overlaid) in a child process.
 func subRun(prop, repo string, overlay [][2]string, extra ...string) (reports []subReport, loadFail bool, out string) {
 	args := []string{"-property", prop, "-tier", "quick", "-repo", repo, "-quiet-evidence"}
+	if exe, err := os.Executable(); err == nil {
+		args = append(args, "-verif", filepath.Dir(filepath.Dir(exe)))
+	}
 	for _, ov := range overlay {
 		args = append(args, "-overlay", ov[0]+"="+ov[1])
 	}
